@@ -148,3 +148,85 @@ def flatten_c10(events):
         elif comp == "life" and ev == "reneg":
             out.append(rec(t="reneg", inst=e.get("by", ""), b1=bool(e["ok"]), b2=bool(e["still_connected"])))
     return out
+
+
+def flatten_stack(events, mode):
+    """events of ONE run (C17 or C10) -> the layer events of both endpoints for Trace_Stack."""
+    out = []
+    seen = set()
+    done = False
+    for e in events:
+        comp, ev, inst = e.get("comp"), e.get("ev"), e.get("inst", "")
+        if comp == "life" and ev == "reset":
+            out.append(rec(t="reset", site=mode, n=int(e["scenario"].get("id", 0))))
+            continue
+        if comp == "life" and ev == "end":
+            out.append(rec(t="end"))
+            continue
+        if comp == "life" and ev == "done":
+            done = True
+        if done or inst not in ("A", "B"):
+            continue
+
+        def once(t, **kw):
+            if (t, inst, kw.get("site", "")) not in seen:
+                seen.add((t, inst, kw.get("site", "")))
+                out.append(rec(t=t, inst=inst, **kw))
+        if comp == "pc":
+            if ev == "ice_seen" and e.get("site") in ("Connected", "Completed"):
+                once("ice_up")
+            elif ev == "start_transport":
+                out.append(rec(t="start", inst=inst, site=e.get("site", "")))
+            elif ev == "srtp_keys":
+                out.append(rec(t="keys", inst=inst, site=e.get("kind", "")))
+            elif ev == "pub" and SITE_MAP.get(e["site"], e["site"]) == "conn.connected":
+                out.append(rec(t="pc_conn", inst=inst))
+        elif comp == "dtls":
+            if ev in ("flight", "hs"):
+                once("dtls_act")
+            elif ev == "keys":
+                once("dtls_keyed")
+        elif comp == "sctp":
+            if ev in ("tx", "rx"):
+                once("sctp_act", site=str(e.get("st", "")))
+            elif ev == "open":
+                out.append(rec(t="chan_open", inst=inst))
+        elif comp == "app" and ev == "dc_open":
+            out.append(rec(t="app_open", inst=inst))
+        elif comp == "rtp" and ev == "gate":
+            once("gate", site=str(e.get("outcome", "")))
+    return out
+
+
+def stack_pass(ck, vlib, runs, mode_of, tag):
+    """Cross-layer ordering (Stack.tla) on the hook events of all layers of the recorded runs: one TLC run of
+    Trace_Stack; broken EXT.* rules are drift, never violations. Returns the number of runs checked."""
+    import os
+    import re
+    flat = []
+    for r in runs:
+        flat += flatten_stack(r, mode_of(r))
+    if not flat:
+        return 0
+    tpath = os.path.join(ck.dir, f"stack_{tag}.ndjson")
+    sink = os.path.join(ck.dir, f"stack_{tag}.verdicts")
+    vlib.write_ndjson(tpath, flat)
+    res = vlib.tlc("Trace_Stack", "Trace_Stack.cfg", workers=1, timeout=900, seed_arg=False,
+                   tags=("VERDICT",), sinks={"VERDICT": sink},
+                   env={"TRACE": tpath, "JAVA_TOOL_OPTIONS": "-Xmx3g -Xss1g"}, tag=f"trace_stack_{tag}", heap="3g")
+    ck.add_tlc(res, f"trace-stack:{len(runs)}")
+    m = None
+    for line in res["raw_tail"]:
+        mm = re.match(r'^<<"TRACE", "(\w+)", (\d+)', line)
+        if mm:
+            m = mm
+    if m is None:
+        raise vlib.ToolError("stack trace validation did not finish")
+    if m.group(1) != "accepted":
+        ck.drift.append({"stack": "unexplained", "record": flat[int(m.group(2)) - 1]})
+    n = 0
+    for v in vlib.read_ndjson(sink):
+        n += 1
+        for b in v["viol"]:
+            ck.drift.append({"stack": list(b), "scenario_id": v["id"]})
+    return n
